@@ -6,7 +6,6 @@
 from functools import reduce
 from operator import mul
 from itertools import product,combinations
-from inspect import isgenerator
 from numbers import Integral
 
 from collections import OrderedDict
@@ -576,8 +575,8 @@ not have any effect."""
         >>> print(list(C))
         [[(1, -1), (1, -2), '>=', 1], [(1, 1), (1, 2), '>=', 1]]
         """
-        if isgenerator(lits):
-            lits = list(lits)
+        # (any iterable: it is scanned more than once)
+        lits = list(lits)
         if check:
             # dummy constraint, just to check the literals once
             self._check_and_update([(1,l) for l in lits]+ ['==',0])
